@@ -195,3 +195,18 @@ mtext("C09",
       "trusted: tag model, sim-heap block table, prediction rule 'fails iff unrepresentable or the allocator said no'; glibc realloc(p,0)",
       "deterministic simulation with allocator fault injection (failure, placement, finite memory) and abort trap vs reference model",
       "DESIGN.md 4.C09")
+
+check("C10", "exploration",
+      [dict(world="string", mode=10, variants=V_ALLOC, quick=80000, thorough=8000000)],
+      RULE_ALLOC + "; narrow and wide instantiations, 2-3 objects each, alphabet {a,b,c,NUL}",
+      ["src/_string.c", "src/string.c", "include/cstl/_string.h", "include/cstl/string.h", "src/vector.c"], stubs=ALLOC_STUBS,
+      required_probes=["count_clamped", "pos_plus_count_wraps", "length_unrepresentable", "growth_abort", "insert_bad_pos_abort", "erase_substr_bad_pos_abort",
+                       "find_bad_pos_abort", "at_out_of_range_abort", "reserve_unsatisfied", "alloc_fail_fired", "find_ch", "find_str", "compare", "swap", "clear"])
+mtext("C10",
+      "Seeded edit histories (set, insert_ch/str/str_n/object, append*, erase, substr, resize, reserve, swap, clear) on narrow AND wide strings against a wchar_t reference string; after every operation size, every at(i), "
+      "str() and the terminator are compared, and the storage block must cover capacity and size+1 characters (128-bit). Positions/counts come from {0, in range, size-1, size, size+1, SIZE_MAX and neighbours, values whose sum with the position wraps}. "
+      "Counts past the end must be truncated for ANY value; positions beyond the end must abort; a growth the allocator refuses or whose storage size is unrepresentable must abort with a clean heap audit "
+      "(position == size is accepted either way for erase/substr/find). find_ch/find_str/find/compare are compared with C-library semantics evaluated on the model's characters. One abort-provoking operation per run at most, placed last.",
+      "trusted: reference strings, sim-heap block table, the 'fails iff unrepresentable or the allocator said no' rule; C locale",
+      "deterministic simulation with allocator fault injection and abort trap vs reference model",
+      "DESIGN.md 4.C10")
